@@ -18,6 +18,10 @@ func (w *World) Observe(n *Node, op OpInfo) *Snap {
 	}
 	prev := n.Prev
 	w.Res.Count("snapshots", 1)
+	if n.Abandoned {
+		n.Prev = cur
+		return cur
+	}
 	if w.Oracles&OC09 != 0 {
 		w.checkWellFormed(n, prev, cur, op)
 	}
